@@ -2,6 +2,7 @@
 from __future__ import annotations
 
 import itertools
+import json
 
 from .. import session_h as H
 from ..core import canon
@@ -368,7 +369,7 @@ class Histories(Suite):
         out.append({"ops": big})
         if budget == "quick":
             out += list(words(A8, 5)) + list(words(A10, 4)) + list(words(A20, 3))
-            nseed, maxlen = 1200, 200
+            nseed, maxlen = 900, 200
             ctx.exhaustive_parts.append("histories: every word of length<=5 over the 8-symbol alphabet {tick, create, initialize, update, delete, cleanup, list+mutate, request} on slot 0; every word of length<=4 over the 10-symbol alphabet (+get, clear); every word of length<=3 over the 20-symbol alphabet (slots 0..2)")
         else:
             out += list(words(A8, 6)) + list(words(A10, 5))
@@ -386,10 +387,33 @@ class Histories(Suite):
                 c["debug"] = True
             if k % 5 == 2:
                 c["twin"] = True
+            if k % 60 == 4:
+                c["opt"] = True  # in an interpreter started with -O
+        # directed, all under -O: create, idle, cleanup at / around the limit, lookups, counts; update and delete in between
+        for a in (0, 1, 2, 3600):
+            for dt in (a, a + 1):
+                out.append({"opt": True, "ops": [C, C, ["T", dt], ["U", 1], ["X", a], ["N"], ["G", 0], ["G", 1], ["T", dt], ["X", a], ["N"],
+                                                 I, ["T", a + 1], ["X", a], ["N"], ["L", "both"], C, ["D", 3], ["X", None], K, ["N"]]})
         return out
 
     def impl_batch(self, cases):
-        obs = [H.run_case(c) for c in cases]
+        obs = [None] * len(cases)
+        opt = [i for i, c in enumerate(cases) if c.get("opt")]
+        if opt:
+            # these run in an interpreter started with -O (asserts and __debug__ blocks of the code under test are off)
+            import subprocess
+            import sys as _sys
+
+            p = subprocess.run([_sys.executable, "-O", "-m", "verifpy.session_worker"], input=json.dumps([cases[i] for i in opt]),
+                               capture_output=True, text=True, timeout=900)
+            res = json.loads(p.stdout) if p.returncode == 0 and p.stdout else None
+            if res is None or not res.get("optimized") or len(res["obs"]) != len(opt):
+                raise RuntimeError("the -O worker of C19 failed: rc=%s %s" % (p.returncode, p.stderr[-300:]))
+            for i, o in zip(opt, res["obs"]):
+                obs[i] = o
+        for i, c in enumerate(cases):
+            if obs[i] is None:
+                obs[i] = H.run_case(c)
         self._last = {id(c): o for c, o in zip(cases, obs)}
         return obs
 
@@ -434,6 +458,8 @@ class Histories(Suite):
             tag += "+twin"
         if case.get("debug"):
             tag += "+debug"
+        if case.get("opt"):
+            tag += "+O"
         kinds = {H.kind_of(op[2], op[3]) for op in case["ops"] if op[0] == "R"}
         if kinds - {"handlerReturned"}:
             tag += "+" + ",".join(sorted(k[:7] for k in kinds - {"handlerReturned"}))
@@ -451,18 +477,21 @@ class Histories(Suite):
             for start in range(0, n, size):
                 cand = ops[:start] + ops[start + size:]
                 if len(cand) < n:
-                    yield {"ops": cand}
+                    yield dict(case, ops=cand)
+        for k in ("debug", "twin"):
+            if case.get(k):
+                yield {a: b for a, b in case.items() if a != k}
         for i, op in enumerate(ops):
             if op[0] == "T" and op[1] > 1:
-                yield {"ops": ops[:i] + [["T", 1]] + ops[i + 1:]}
+                yield dict(case, ops=ops[:i] + [["T", 1]] + ops[i + 1:])
             if op[0] == "B" and op[1] > 1:
                 for m in (op[1] // 2, op[1] - 1):
                     yield dict(case, ops=ops[:i] + [["B", m] + op[2:]] + ops[i + 1:])
             if op[0] == "C" and op[1] != {}:
-                yield {"ops": ops[:i] + [["C", {}, op[2]]] + ops[i + 1:]}
+                yield dict(case, ops=ops[:i] + [["C", {}, op[2]]] + ops[i + 1:])
             if op[0] == "L" and op[1] == "both":
-                yield {"ops": ops[:i] + [["L", "add"]] + ops[i + 1:]}
-                yield {"ops": ops[:i] + [["L", "pop"]] + ops[i + 1:]}
+                yield dict(case, ops=ops[:i] + [["L", "add"]] + ops[i + 1:])
+                yield dict(case, ops=ops[:i] + [["L", "pop"]] + ops[i + 1:])
 
 
 class IdFormat(Suite):
